@@ -135,7 +135,7 @@ def write_hap(case, path, sorted_for_tabix):
             lines.append("\t".join([r["t"], r["chrom"], str(r["start"]), str(r["end"]), r["id"]]))
             for v in r["vars"]:
                 lines.append("\t".join(["V", r["id"], str(v[0]), str(v[1]), v[2], v[3]]))
-    text = "#\tversion\t0.2.0\n# a free comment\n" + "\n".join(lines) + "\n"
+    text = C.text_ending(case, "in.hap", "#\tversion\t0.2.0\n# a free comment\n" + "\n".join(lines) + "\n")
     if str(path).endswith(".gz"):
         with gzip.open(path, "wt") as f:
             f.write(text)
@@ -164,7 +164,10 @@ def impl(case):
     inp = d / ("in.hap.gz" if case["gz_input"] else "in.hap")
     text = write_hap(case, inp, sorted_for_tabix=not case["sort"])
     before = open(inp, "rb").read()
-    out = d / "res.hap.gz" if case["explicit_output"] else None
+    # an explicit output may carry any name (the index is <name>.tbi), also one that does not end in .gz or holds a blank
+    out = d / ["res.hap.gz", "res.hap.bgz", "res out.hap.gz", "res.sorted.gz"][C.plumb(case, "out-name", 4)] if case["explicit_output"] else None
+    if out is not None and C.plumb(case, "stale-out", 3) == 0:
+        C.stale_output(out)
     index_haps(inp, sort=case["sort"], output=out, log=SD.silent_log())
     if out is None:
         out = inp if case["gz_input"] else Path(str(inp) + ".gz")
